@@ -688,7 +688,7 @@ impl<O: Adjacent> Adjacent for Index<O> {
     }
 
     fn is_next(&self, previous: &Self) -> bool {
-        self.offset.is_next(&previous.offset) && self.number == previous.number + 1
+        self.offset.is_next(&previous.offset) && previous.number.checked_add(1) == Some(self.number)
     }
 }
 
